@@ -87,6 +87,63 @@ func slowFor(r *pool.Message) {
 func slowHandlerUDP(_ *responsewriter.ResponseWriter[*udpclient.Conn], r *pool.Message) { slowFor(r) }
 func slowHandlerTCP(_ *responsewriter.ResponseWriter[*tcpclient.Conn], r *pool.Message) { slowFor(r) }
 
+// rle summarises the per-tick observations of a bulk `ticks <n> <t0> <dt>` operation (n housekeeping ticks at t0, t0+dt, …
+// with a silent peer in between) as run lengths: `rle c0 3*none 65535*ping 1*close 2*none`.  The class of a tick is what
+// was observed at it (ping numbers dropped), several events joined with `+`.
+type rle struct {
+	parts []string
+	cur   string
+	n     int
+}
+
+func (r *rle) add(obs string, times int) {
+	var keep []string
+	if obs != "none" {
+		for _, p := range strings.Split(obs, " ; ") {
+			switch {
+			case strings.HasPrefix(p, "ping "):
+				keep = append(keep, "ping")
+			default:
+				keep = append(keep, strings.ReplaceAll(p, " ", "_"))
+			}
+		}
+	}
+	cl := "none"
+	if len(keep) > 0 {
+		cl = strings.Join(keep, "+")
+	}
+	if cl != r.cur && r.n > 0 {
+		r.parts = append(r.parts, fmt.Sprintf("%d*%s", r.n, r.cur))
+		r.n = 0
+	}
+	r.cur = cl
+	r.n += times
+}
+
+func (r *rle) String() string {
+	if r.n > 0 {
+		r.parts = append(r.parts, fmt.Sprintf("%d*%s", r.n, r.cur))
+		r.n = 0
+	}
+	return "rle c0 " + strings.Join(r.parts, " ")
+}
+
+// bulkTicks runs the n ticks of a `ticks <n> <t0> <dt>` line: tick(j) performs the j-th tick and returns what was observed.
+func bulkTicks(f []string, closed *bool, tick func(at int64) string) string {
+	n, _ := strconv.Atoi(f[1])
+	t0, _ := strconv.ParseInt(f[2], 10, 64)
+	dt, _ := strconv.ParseInt(f[3], 10, 64)
+	r := &rle{}
+	for j := 0; j < n; j++ {
+		if *closed {
+			r.add("none", n-j)
+			break
+		}
+		r.add(tick(t0+int64(j)*dt), 1)
+	}
+	return r.String()
+}
+
 func sleepTo(start time.Time, t int64) {
 	if d := time.Duration(t) - time.Since(start); d > 0 {
 		time.Sleep(d)
@@ -170,6 +227,7 @@ func runConnUDP(t *testing.T, c caseDef) []string {
 					}
 					pl.n++
 					pl.mids[pl.n] = m.MessageID()
+					delete(pl.mids, pl.n-64) // long runs: message IDs come round again after 65536 pings; only a recent ping can be pending
 					log.add(fmt.Sprintf("ping %d", pl.n))
 				}
 			}
@@ -187,6 +245,28 @@ func runConnUDP(t *testing.T, c caseDef) []string {
 		for i, f := range c.ops {
 			if closed {
 				out[i] = "none"
+				if f[0] == "ticks" {
+					out[i] = "rle c0 " + f[1] + "*none"
+				}
+				continue
+			}
+			if f[0] == "ticks" {
+				// a long silent stretch: n housekeeping ticks in a row (the far end of the count of unanswered pings)
+				out[i] = bulkTicks(f, &closed, func(at int64) string {
+					func() {
+						defer func() {
+							if r := recover(); r != nil {
+								log.add(fmt.Sprintf("panic %v", r))
+							}
+						}()
+						sleepTo(start, at)
+						shadow.CheckExpirations(time.Now())
+						cc.CheckExpirations(time.Now())
+					}()
+					synctest.Wait()
+					collect()
+					return log.take()
+				})
 				continue
 			}
 			func() {
@@ -344,6 +424,7 @@ func runConnTCP(t *testing.T, c caseDef) []string {
 				if m.Code() == codes.Ping {
 					pl.n++
 					pl.toks[pl.n] = append([]byte(nil), m.Token()...)
+					delete(pl.toks, pl.n-64)
 					log.add(fmt.Sprintf("ping %d", pl.n))
 				}
 			}
@@ -362,6 +443,28 @@ func runConnTCP(t *testing.T, c caseDef) []string {
 		for i, f := range c.ops {
 			if closed {
 				out[i] = "none"
+				if f[0] == "ticks" {
+					out[i] = "rle c0 " + f[1] + "*none"
+				}
+				continue
+			}
+			if f[0] == "ticks" {
+				// a long silent stretch: n housekeeping ticks in a row (the far end of the count of unanswered pings)
+				out[i] = bulkTicks(f, &closed, func(at int64) string {
+					func() {
+						defer func() {
+							if r := recover(); r != nil {
+								log.add(fmt.Sprintf("panic %v", r))
+							}
+						}()
+						sleepTo(start, at)
+						shadow.CheckExpirations(time.Now())
+						cc.CheckExpirations(time.Now())
+					}()
+					synctest.Wait()
+					collect()
+					return log.take()
+				})
 				continue
 			}
 			func() {
@@ -507,7 +610,7 @@ func TestC18(t *testing.T) {
 			flush(w)
 			fmt.Fprintln(w, "end")
 		case cur != nil && (f[0] == "recv" && len(f) == 2 || f[0] == "pong" && len(f) == 3 || f[0] == "tick" && len(f) == 2 ||
-			f[0] == "tickf" && len(f) == 2 || f[0] == "recvk" && len(f) == 3 || f[0] == "trickle" && len(f) == 2 || f[0] == "send" && len(f) == 2 || f[0] == "recvslow" && len(f) == 3):
+			f[0] == "tickf" && len(f) == 2 || f[0] == "recvk" && len(f) == 3 || f[0] == "trickle" && len(f) == 2 || f[0] == "send" && len(f) == 2 || f[0] == "recvslow" && len(f) == 3 || f[0] == "ticks" && len(f) == 4):
 			cur.ops = append(cur.ops, f)
 		default:
 			flush(w)
